@@ -41,7 +41,8 @@ O  text     (1) every line has the same width; (2) the rule lines give the colum
             that are not about text (format, numberify, pager), as the shell does (**Settings.todict()): its text falls under
             clauses (1)-(9) with the options it was handed (narrow off -> no header cut, boxed -> frame, ...).  A text identical
             to the one of render_text just read back is not read a second time; any other text is read back in full.
-            Quick tier: on all the option combinations for tables of <= 2 rows, on the 16-run array for 3 rows.
+            Quick tier: single columns of <= 2 cells and one-row pairs on all their option combinations, single columns of 3
+            cells on the 16-run array, two-row pairs not; thorough tier: every table x every option combination.
    CSV      first record = the column names; then one record per (expanded) line of every row, each with one
             field per column; each field, stripped, equals the stripped text cell of the rendering with the same
             expand / nullvalue (for set and inventory cells: the same tokens, separators being listsep in text
@@ -642,7 +643,10 @@ def shard(shard_no, nshards, seed, thorough):
                     record(acc, fp, f'{pr[1]} -- {describe(names, dtnames, rows, o)}', make_case(names, dtnames, rows, o))
             # quick tier: CSV with all the options on every combination for tables of <= 2 rows, on the 16-run array for 3 rows
             csv_all = thorough or len(rows) <= 2 or tuple(sorted(o.items())) in oa16
-            for k, loc, j, msg in tc.run(o, csv_all, csv_all):
+            # quick tier: the registered text format on the same cases, two-row pairs left out (what the entry point adds is the handing
+            # over of the options, which every option combination on single columns and one-row pairs exercises)
+            fmt_all = csv_all and (thorough or kind == 'single' or len(rows) <= 1)
+            for k, loc, j, msg in tc.run(o, csv_all, fmt_all):
                 fp = fingerprint(k, loc, j, names, dtnames, rows, o)
                 record(acc, fp, f'{msg} -- {describe(names, dtnames, rows, o)}', make_case(names, dtnames, rows, o))
             if oi == 0:
